@@ -67,6 +67,12 @@ func progressMode(r *common.Run, sk *sink) {
 		runWitnessCrash(r, sk, c, r.Rand("witness-crash", c), r.SubSeed("witness-crash-seed", c))
 		r.Flush()
 	}
+	// directed prefix: 2 voters + witness, snapshots that cover the AddWitness entry, the follower's
+	// host restarts, then the leader's host goes down for good: follower + witness are a majority
+	for _, c := range r.MyCases(r.Pick(6, 60)) {
+		runWitnessLeaderLoss(r, sk, c, r.Rand("wll", c), r.SubSeed("wll-seed", c))
+		r.Flush()
+	}
 	// directed prefix: a quiescent shard loses its leader
 	for _, c := range r.MyCases(r.Pick(8, 80)) {
 		runQuiescedLeaderLoss(r, sk, c, r.Rand("qll", c), r.SubSeed("qll-seed", c))
@@ -1127,4 +1133,198 @@ func runQuiescedLeaderLoss(r *common.Run, sk *sink, caseNo int, rng *rand.Rand, 
 	if r.WantSample() {
 		r.Sample(map[string]interface{}{"quiesced_leader_loss_case": caseNo, "config": desc, "completed": completed, "attempts": attempts})
 	}
+}
+
+// runWitnessLeaderLoss: a shard of 2 voters and a witness. Both voters take snapshots after the
+// witness was added (and, in some cases, the follower is repaired by a snapshot from the leader),
+// the follower's host is restarted (gracefully or after a power loss), then the leader's host
+// goes down and stays down. The follower and the witness are a connected majority of the voting
+// members: within electTicks ticks the follower must lead, and a proposal through it must complete.
+func runWitnessLeaderLoss(r *common.Run, sk *sink, caseNo int, rng *rand.Rand, seed int64) {
+	kind := []cluster.SMKind{cluster.Regular, cluster.Concurrent, cluster.OnDisk}[rng.Intn(3)]
+	store := cluster.Pebble
+	if rng.Intn(3) == 0 {
+		store = cluster.Tan
+	}
+	preVote, checkQuorum := rng.Intn(2) == 0, rng.Intn(2) == 0
+	powerLoss := rng.Intn(2) == 0
+	viaInstall := rng.Intn(2) == 0
+	desc := fmt.Sprintf("sm=%s store=%s prevote=%v checkquorum=%v follower-restart=%s follower-repaired-by-snapshot=%v", kind, store, preVote, checkQuorum,
+		map[bool]string{true: "power-loss", false: "graceful"}[powerLoss], viaInstall)
+	fmt.Printf("witness-leader-loss case %d %s\n", caseNo, desc)
+	c := cluster.NewCluster(cluster.Options{Hosts: 3, Seed: seed, RTTMs: 10, Store: store,
+		SMOpt: func(uint64, uint64) cluster.SMOptions { return cluster.SMOptions{Kind: kind, RecordApply: true} }}, sk)
+	const shardID = 1
+	clock := &tickClock{m: map[uint64]*int64{}}
+	verifhook.SetPoint(verifhook.NodeTick, func(s, rep uint64) {
+		if s == shardID {
+			atomic.AddInt64(clock.ctr(rep), 1)
+		}
+	})
+	defer verifhook.SetPoint(verifhook.NodeTick, func(uint64, uint64) {})
+	if err := c.StartAll(); err != nil {
+		r.Inconclusive(fmt.Sprintf("witness-leader-loss case %d: start failed: %v", caseNo, err))
+		return
+	}
+	defer c.StopAll()
+	shardCfg := func(rep uint64) config.Config {
+		cfg := cluster.ShardConfig(shardID, rep)
+		cfg.PreVote, cfg.CheckQuorum = preVote, checkQuorum
+		cfg.SnapshotEntries, cfg.CompactionOverhead = 10, 2
+		return cfg
+	}
+	members := c.Members(2)
+	voterSet := map[uint64]int{1: 0, 2: 1}
+	for i := 0; i < 2; i++ {
+		if err := c.Hosts[i].StartReplica(members, false, kind, shardCfg(uint64(i+1))); err != nil {
+			r.Inconclusive(fmt.Sprintf("witness-leader-loss case %d: %v", caseNo, err))
+			return
+		}
+	}
+	propose := func(n int) bool {
+		ok := 0
+		for try := 0; try < 40*n && ok < n; try++ {
+			if li := c.LeaderHost(shardID, voterSet); li >= 0 {
+				if nh := c.Hosts[li].NodeHost(); nh != nil {
+					ctx, cancel := context.WithTimeout(context.Background(), 500*time.Millisecond)
+					_, err := nh.SyncPropose(ctx, nh.GetNoOPSession(shardID), cluster.MakeCmd(byte(try%2), cluster.NewID()))
+					cancel()
+					if err == nil {
+						ok++
+						continue
+					}
+				}
+			}
+			time.Sleep(30 * time.Millisecond)
+		}
+		return ok == n
+	}
+	if !waitFor(15*time.Second, func() bool { return c.LeaderHost(shardID, voterSet) >= 0 }) {
+		r.Inconclusive(fmt.Sprintf("witness-leader-loss case %d: no first leader", caseNo))
+		return
+	}
+	wh := c.Hosts[2]
+	added := false
+	for try := 0; try < 50 && !added; try++ {
+		if li := c.LeaderHost(shardID, voterSet); li >= 0 {
+			ctx, cancel := context.WithTimeout(context.Background(), time.Second)
+			added = c.Hosts[li].NodeHost().SyncRequestAddWitness(ctx, shardID, 3, wh.Addr, 0) == nil
+			cancel()
+		}
+		if !added {
+			time.Sleep(50 * time.Millisecond)
+		}
+	}
+	wcfg := shardCfg(3)
+	wcfg.IsWitness = true
+	wcfg.SnapshotEntries = 0
+	if !added || wh.StartReplica(nil, true, kind, wcfg) != nil {
+		r.Inconclusive(fmt.Sprintf("witness-leader-loss case %d: could not add the witness", caseNo))
+		return
+	}
+	li := c.LeaderHost(shardID, voterSet)
+	if li < 0 {
+		r.Inconclusive(fmt.Sprintf("witness-leader-loss case %d: no leader", caseNo))
+		return
+	}
+	fi := 1 - li
+	if viaInstall {
+		// the follower misses enough for the leader to compact what it needs
+		c.Net.Isolate(c.Hosts[fi].Addr, false)
+		if !propose(30) {
+			r.Inconclusive(fmt.Sprintf("witness-leader-loss case %d: proposals with leader + witness failed", caseNo))
+			return
+		}
+		c.Net.HealAll()
+	}
+	if !propose(25) { // snapshots on both voters, all of them after the AddWitness entry
+		r.Inconclusive(fmt.Sprintf("witness-leader-loss case %d: warm-up proposals failed", caseNo))
+		return
+	}
+	if !waitFor(15*time.Second, func() bool { return sameState(c, shardID, voterSet) }) {
+		r.Inconclusive(fmt.Sprintf("witness-leader-loss case %d: the follower did not catch up before the restart", caseNo))
+		return
+	}
+	// the follower's host restarts
+	fh := c.Hosts[fi]
+	if powerLoss {
+		fh.Crash()
+	} else {
+		fh.Stop()
+	}
+	time.Sleep(50 * time.Millisecond)
+	restart(c, sk, fh)
+	li = c.LeaderHost(shardID, voterSet)
+	if li != 1-fi {
+		// leadership moved during the restart: the scenario needs the other voter to lead
+		sk.Count("witness_leader_loss_cases_skipped_leadership_moved", 1)
+		r.Case(false, common.Hash("wll", caseNo, desc))
+		return
+	}
+	if !propose(3) {
+		r.Inconclusive(fmt.Sprintf("witness-leader-loss case %d: proposals after the follower's restart failed", caseNo))
+		return
+	}
+	waitFor(10*time.Second, func() bool { return sameState(c, shardID, voterSet) })
+	// the leader's host goes down for good
+	c.Hosts[li].Crash()
+	frep := uint64(fi + 1)
+	base := clock.get(frep)
+	wall := time.Now()
+	leads := func() bool {
+		if nh := fh.NodeHost(); nh != nil {
+			if lid, _, ok, err := nh.GetLeaderID(shardID); err == nil && ok && lid == frep {
+				return true
+			}
+		}
+		return false
+	}
+	// one proposal wakes the shard up if need be (its outcome is not judged)
+	if nh := fh.NodeHost(); nh != nil {
+		if rs, err := nh.Propose(nh.GetNoOPSession(shardID), cluster.MakeCmd(1, cluster.NewID()), time.Second); err == nil {
+			go func() { <-rs.ResultC(); rs.Release() }()
+		}
+	}
+	for !leads() && clock.get(frep)-base < electTicks && time.Since(wall) < 120*time.Second {
+		time.Sleep(20 * time.Millisecond)
+	}
+	wit := map[string]interface{}{"case": caseNo, "config": desc}
+	switch {
+	case leads():
+		r.Max("max_ticks_until_follower_leads_with_the_witness", clock.get(frep)-base)
+	case clock.get(frep)-base >= electTicks:
+		sk.Violation("C17", "no-leader-after-leader-loss:follower-and-witness-are-a-majority",
+			fmt.Sprintf("2 voters + 1 witness; the follower restarted (%s), then the leader's host went down: the follower and the witness are up and connected, the follower processed %d ticks and does not lead", map[bool]string{true: "power loss", false: "gracefully"}[powerLoss], clock.get(frep)-base), wit)
+		r.Case(false, common.Hash("wll", caseNo, desc))
+		return
+	default:
+		r.Inconclusive(fmt.Sprintf("witness-leader-loss case %d: ticks of the follower did not advance", caseNo))
+		return
+	}
+	// a proposal through the new leader completes (retried every 30 ticks, bounded by ticks)
+	t0 := clock.get(frep)
+	done := false
+	for clock.get(frep)-t0 < 1500 && !done && time.Since(wall) < 240*time.Second {
+		if nh := fh.NodeHost(); nh != nil {
+			if rs, err := nh.Propose(nh.GetNoOPSession(shardID), cluster.MakeCmd(0, cluster.NewID()), 3*time.Second); err == nil {
+				res := <-rs.ResultC()
+				rs.Release()
+				done = res.Completed()
+			}
+		}
+		if !done {
+			from := clock.get(frep)
+			for clock.get(frep)-from < 30 && time.Since(wall) < 240*time.Second {
+				time.Sleep(10 * time.Millisecond)
+			}
+		}
+	}
+	if !done && clock.get(frep)-t0 >= 1500 {
+		sk.Violation("C17", "request-does-not-complete-after-leader-loss:follower-and-witness-are-a-majority",
+			fmt.Sprintf("the follower leads with the witness after the old leader's host went down, but a proposal retried for %d ticks never completed", clock.get(frep)-t0), wit)
+	}
+	if done {
+		sk.Count("witness_leader_loss_cases_completed", 1)
+	}
+	r.Case(done, common.Hash("wll", caseNo, desc))
 }
